@@ -1359,40 +1359,41 @@ theorem branch_lowerF_sim (F : List Nat) (Fn : Func) (hsc : scopedL F Fn.body = 
     | some sp =>
       have : sp ∈ pendingL n Fn.body := (hpo.1 sp rfl).1
       rw [hnoesc n] at this; cases this
+  have hrE := RunsL.probes_post Fn.endBefore hr
   by_cases hexit : Fn.exit = []
-  · have hbody : (lowerF Fn).body = probes Fn.entry ++ lowerL [] Fn.body := by simp [lowerF, hexit]
-    have hr' : RunsL fns false [] ((lowerF Fn).body) s' o' := by
-      rw [hbody]; apply RunsL.probes_pre; rw [hexit] at hr; exact hr
+  · have hbody : (lowerF Fn).body = probes Fn.entry ++ (lowerL [] Fn.body ++ probes Fn.endBefore) := by simp [lowerF, hexit]
+    have hr' : RunsL fns false [] ((lowerF Fn).body) s' (o'.onNormal (·.fire Fn.endBefore)) := by
+      rw [hbody]; apply RunsL.probes_pre; rw [hexit] at hrE; exact hrE
     obtain ⟨g, eg, _⟩ := hr'
     refine ⟨g, ?_⟩
     simp only [Bool.false_eq_true, if_false, hex, eg]
     cases o with
     | normal so =>
       obtain ⟨r, rfl, hfer⟩ := hrel.normal_inv
-      simpa [finish, FOutRel, hnres, hexit, hfer.stack] using hfer
+      simpa [finish, FOutRel, hnres, hexit, hfer.stack, Out.onNormal] using hfer.fire Fn.endBefore
     | br n pd so =>
       have := hpd n pd so rfl; subst this
       obtain ⟨r, rfl, hfer⟩ := hrel.br_inv
       cases n with
       | zero =>
-        simp only [finish, if_true, saPs, hexit, St.fire_nil, Bool.false_eq_true, if_false, hnres, FOutRel, hfer.stack, true_and]
+        simp only [finish, if_true, saPs, hexit, St.fire_nil, Bool.false_eq_true, if_false, hnres, FOutRel, hfer.stack, true_and, Out.onNormal]
         rw [hs, hs']
         exact hfer.exitTo [] Fn.nres
       | succ n => simp [finish, FOut.ok] at ok
     | ret so =>
       obtain ⟨r, rfl, hfer⟩ := hrel.ret_inv
-      simpa [finish, FOutRel, hnres, hfer.stack] using hfer
+      simpa [finish, FOutRel, hnres, hfer.stack, Out.onNormal] using hfer
     | trap so =>
       obtain ⟨r, rfl, hfer⟩ := hrel.trap_inv
-      simpa [finish, FOutRel] using hfer
+      simpa [finish, FOutRel, Out.onNormal] using hfer
     | stuck w => simp at oko
   · have hbody : (lowerF Fn).body
-        = probes Fn.entry ++ ([Instr.block [] {} Fn.nres "block:functype" (lowerL Fn.exit Fn.body)] ++ probes Fn.exit) := by
+        = probes Fn.entry ++ ([Instr.block [] {} Fn.nres "block:functype" (lowerL Fn.exit Fn.body ++ probes Fn.endBefore)] ++ probes Fn.exit) := by
       simp [lowerF, hexit]
-    have hblk := Runs1.block (fns := fns) (a := Fn.nres) (tk := "block:functype") hr
+    have hblk := Runs1.block (fns := fns) (a := Fn.nres) (tk := "block:functype") hrE
     have hall := RunsL.blocklike (ps := Fn.exit) hblk
     have hr' : RunsL fns false [] ((lowerF Fn).body) s'
-        (Out.onNormal (fun x => x.fire Fn.exit) (leaveBlock false {} (s'.fire Fn.entry).stack Fn.nres o')) := by
+        (Out.onNormal (fun x => x.fire Fn.exit) (leaveBlock false {} (s'.fire Fn.entry).stack Fn.nres (o'.onNormal (·.fire Fn.endBefore)))) := by
       rw [hbody]; exact RunsL.probes_pre Fn.entry hall
     obtain ⟨g, eg, _⟩ := hr'
     refine ⟨g, ?_⟩
@@ -1400,7 +1401,7 @@ theorem branch_lowerF_sim (F : List Nat) (Fn : Func) (hsc : scopedL F Fn.body = 
     cases o with
     | normal so =>
       obtain ⟨r, rfl, hfer⟩ := hrel.normal_inv
-      simpa [finish, FOutRel, hnres, leaveBlock, Out.onNormal, hfer.stack] using hfer.fire Fn.exit
+      simpa [finish, FOutRel, hnres, leaveBlock, Out.onNormal, hfer.stack] using (hfer.fire Fn.endBefore).fire Fn.exit
     | br n pd so =>
       have := hpd n pd so rfl; subst this
       obtain ⟨r, rfl, hfer⟩ := hrel.br_inv
